@@ -868,6 +868,33 @@ func (i *interpreter) eqnil(t types.Type, x, y value) value {
 	return i.equals(t, x, y)
 }
 
+// copyVal returns a copy of v in which every aggregate (struct, array) is a fresh object.
+func copyVal(v value) value {
+	switch v := v.(type) {
+	case structure:
+		out := make(structure, len(v))
+		for k, e := range v {
+			out[k] = copyVal(e)
+		}
+		return out
+	case array:
+		out := make(array, len(v))
+		for k, e := range v {
+			out[k] = copyVal(e)
+		}
+		return out
+	}
+	return v
+}
+
+func copyVals(vs []value) []value {
+	out := make([]value, len(vs))
+	for k, v := range vs {
+		out[k] = copyVal(v)
+	}
+	return out
+}
+
 func (i *interpreter) vnot(v value) value {
 	switch v := v.(type) {
 	case bool:
@@ -1016,7 +1043,7 @@ func (i *interpreter) callBuiltin(caller *frame, callpos token.Pos, fn *ssa.Buil
 			return arg0
 		}
 		// append([]T, ...[]T) []T
-		return append(args[0].([]value), args[1].([]value)...)
+		return append(args[0].([]value), copyVals(args[1].([]value))...)
 
 	case "copy": // copy([]T, []T) int or copy([]byte, string) int
 		src := args[1]
@@ -1027,7 +1054,14 @@ func (i *interpreter) callBuiltin(caller *frame, callpos token.Pos, fn *ssa.Buil
 		if ss, ok := src.(symstr); ok {
 			src = []value(ss)
 		}
-		return copy(args[0].([]value), src.([]value))
+		dst, srcv := args[0].([]value), src.([]value)
+		n := len(dst)
+		if len(srcv) < n {
+			n = len(srcv)
+		}
+		// aggregates are owned by their cell: copy them (source and destination may overlap)
+		tmp := copyVals(srcv[:n])
+		return copy(dst, tmp)
 
 	case "close": // close(chan T)
 		i.abort("unsupported", "channel close")
